@@ -11,7 +11,7 @@ SimNext ==
     THEN (\E c \in Conns : CloseStart(c)) /\ w' = 0
     ELSE \/ \E c \in Conns, s \in 1..5 : (NewConn(c) \/ ConnBegin(c) \/ ConnAuth(c) \/ ConnReply(c) \/ ConnDone(c)) /\ w' = s
          \/ \E c \in Conns, s \in 1..3 : (TickBegin(c) \/ TickEnd(c) \/ CloseXmit(c)) /\ w' = s
-         \/ \E c \in Conns, s \in 1..2 : (Subscribe(c) \/ Unsubscribe(c) \/ Push(c)) /\ w' = s
+         \/ \E c \in Conns, s \in 1..2 : (Subscribe(c) \/ Unsubscribe(c) \/ Push(c, "send") \/ Push(c, "pub")) /\ w' = s
          \/ \E c \in Conns : DupConnect(c) /\ w' = 0
          \/ \E c \in Conns : (Disconnect(c) \/ TransportClose(c)) /\ w' = 0
          \/ ShutBegin /\ w' = 0
